@@ -2,6 +2,7 @@
 """usage: seed_store2.py <wave dir> <verify results> <suffix>  — store every verified change of a later wave as seeded/<Cxx><suffix><V>/"""
 import json, os, re, shutil, sys
 wd, resf, suf = sys.argv[1], sys.argv[2], sys.argv[3]
+kinds = sys.argv[4] if len(sys.argv) > 4 else 'A literal/constant, B control flow in a main function, C shared helper'
 n = 0
 for line in open(resf):
     m = re.match(r'^(C\d+)/([ABC]) ', line)
@@ -17,7 +18,7 @@ for line in open(resf):
     shutil.copy(src + '/patch.diff', d + '/patch.diff')
     shutil.copy(src + '/demo.rs', d + '/demo.rs')
     notes = open(src + '/notes.md', encoding='utf-8').read() if os.path.exists(src + '/notes.md') else ''
-    meta = {'id': pid + suf + v, 'breaks_property': pid, 'author': 'independent sub-agent (wave %s) given only the property text and a scratch worktree; asked for kind %s (A literal/constant, B control flow in a main function, C shared helper)' % (suf, v),
+    meta = {'id': pid + suf + v, 'breaks_property': pid, 'author': 'independent sub-agent (wave %s) given only the property text and a scratch worktree; asked for kind %s (%s)' % (suf, v, kinds),
             'ported': False, 'needs_to_manifest': notes.strip()[:1500],
             'confirmed_by': 'tools/verify_seed.sh in a scratch worktree of /repo HEAD: patch applies, `cargo build` clean, `cargo test --lib` 272 passed, tests/demo.rs passes on HEAD and fails with the patch',
             'confirmation_output': line.strip()}
